@@ -30,6 +30,45 @@ CHECKS = {
             'canonical schedule only (policy is sequential per component); upper bounds only; scripted task backend and hook answers',
             'DESIGN.md §3 C12'),
     # id: (level, technique, engine, text, note, design_ref)
+    'C09': ('exploration', 'exhaustive enumeration of the reference grammar x name-set contexts against an independent classifier/printer reference model',
+            'E2',
+            'The full product of the reference grammar (stage prefixes x component-like names, reserved/app-dep/manifest folders, absolute paths, '
+            'variables x path shapes x all 8 methods) under every context (known-component sets, manifests with nested keys, application '
+            'dependencies, owner stage) is pushed through the real parse/print/expand/classify functions and, per context, through '
+            'FlowIRConcrete.validate and the package loader; judged by a reference model that never imports the product. Exhaustive over the stated alphabets.',
+            'contexts where a component shares its name with a folder are excluded (documented as unsupported); open references judged for idempotence only',
+            'DESIGN.md §3 C09'),
+    'C10': ('exploration', 'exhaustive enumeration of colliding producer-name sets x declaration orders x argument templates on instantiated experiments against a token-wise substitution model',
+            'E2',
+            'Every pair/triple of producer names from the collision alphabet (prefix/suffix/substring/equal across stages), every declaration order, '
+            'spelling, method and wrapper is hosted as a consumer component of a real instantiated experiment and resolved by '
+            'ComponentSpecification.resolveArguments(); the result must equal an independent simultaneous token-wise substitution. Exhaustive over the fixed core; '
+            'quick adds one seed-rotated shard of the thorough extension. Three genuine defects are recorded as known findings.',
+            'tokens are maximal [\\w./#-]+:method runs; inputs the statement leaves open (undeclared tokens, copy tokens in arguments) are excluded',
+            'DESIGN.md §3 C10'),
+    'C13': ('model_checking', 'stateless exploration of the real RepeatingEngine/monitor loop under the controlled runtime with the environment event placed at every scheduling point and every source line (line-level preemption)',
+            'E1',
+            'The real RepeatingEngine.run + CreateMonitor poll loop runs under the virtual runtime; for every combination of repeatRetries, kill delay, '
+            'check-producer-output, observer task script, producer output pattern and event kind, the producers-finished notification (or an external kill '
+            'followed by it) is injected at EVERY choice point of the run, including every source line of EngineTaskController/schedule_next_instance. A temporal '
+            'monitor checks launch-before-output, final-output-observed and bounded termination. One window defect was found and fixed, one is a known finding.',
+            'notification delivered by calling notify_all_producers_finished(); window of 26 virtual seconds before the event, horizon 400 s after; canonical schedule otherwise',
+            'DESIGN.md §3 C13'),
+    'C17': ('exploration', 'exhaustive enumeration of platform x environment-definition x selection-spelling x launch-environment combinations against an independent environment model with a leak check',
+            'E2',
+            'Every combination of platform, package default environment shape, 7x6 named-environment layer templates, selection spelling (unset, empty, none/NONE, '
+            'environment, name in three cases, via variable), interpreter flag, launch environment and system variables is resolved through '
+            'WorkflowGraph.environmentForNode on primitive graphs, replicated graphs and packages loaded from disk under a controlled os.environ of unique sentinels; '
+            'compared exactly with a reference model written from the statement (plus leak classification).',
+            'grey zones (empty values, $$, self-referencing keys, chains of references) excluded or leak-checked only',
+            'DESIGN.md §3 C17'),
+    'C19': ('exploration', 'exhaustive enumeration of the option table derived from the FlowIR schema, differential dump/load oracle',
+            'E2',
+            'The option table is derived from FlowIR.type_flowir_component/default_component_structure so every expressible option of every backend is covered by construction; '
+            'every option value (component / global blueprint / stage blueprint), option pairs per section, variables, environments, status/output entries and platform '
+            'instances are written with Dosini.dump and loaded with Dosini.load_from_directory, and compared through FlowIRConcrete (typed structural diff). Two defects found and fixed.',
+            'FlowIR-only options (podSpec, docker.*, gpus, isMigrated, ...) excluded by rule and listed in the evidence',
+            'DESIGN.md §3 C19'),
     'C20': ('exploration', 'exhaustive enumeration of stage-weight grids and controller answers on the real loader and StatusMonitor',
             'E2',
             'Every weight vector of the stated grids (all compositions of 1 in hundredths for n<=3, thousandths n<=2, k/m rationals, '
